@@ -211,7 +211,12 @@ func normalizeToIntString(n numberParts) (string, bool) {
 		// unnecessarily constructing a large byte slice that may simply fail
 		// later on.
 		const maxDigits = 20 // Max uint64 value has 20 decimal digits.
-		if intpSize+exp > maxDigits {
+		numDigits := intpSize + exp
+		if intpSize == 0 {
+			// Leading zeros of the fraction do not produce digits.
+			numDigits -= fracSize - len(bytes.TrimLeft(n.frac, "0"))
+		}
+		if numDigits > maxDigits {
 			return "", false
 		}
 
